@@ -156,6 +156,15 @@ theorem distinctCalls_of_B (steps : List Step) (h : distinctCallsB lower N steps
 
 end
 
+/-! ### the API discipline of a step is decidable -/
+
+instance (lower : String → String) (st : Step) : Decidable (Disc lower st) := by
+  unfold Disc; split <;> infer_instance
+instance (lower : String → String) (st : Step) : Decidable (Disc2 lower st) := by
+  unfold Disc2; split <;> infer_instance
+instance (st : Step) : Decidable (Disc3 st) := by
+  unfold Disc3; split <;> infer_instance
+
 def openB (steps : List Step) : Bool := steps.all fun st => !st.pre.done
 
 theorem open_of_openB (steps : List Step) (h : openB steps = true) : Open steps := by
